@@ -3,7 +3,10 @@
 use crate::{account::Signature, serialization, transaction::rlp};
 use ethaddr::Address;
 use ethnum::U256;
-use serde::Deserialize;
+use serde::{
+    de::{self, Deserializer},
+    Deserialize,
+};
 
 /// A Legacy Ethereum transaction.
 #[derive(Clone, Debug, Deserialize, Eq, PartialEq)]
@@ -27,8 +30,23 @@ pub struct LegacyTransaction {
     #[serde(with = "serialization::bytes")]
     pub data: Vec<u8>,
     /// Optional chain ID for the transaction.
-    #[serde(default, rename = "chainId", with = "serialization::numopt")]
+    #[serde(default, rename = "chainId", deserialize_with = "deserialize_chain_id")]
     pub chain_id: Option<U256>,
+}
+
+/// Deserializes an optional EIP-155 chain ID, refusing values for which the
+/// replay protected `v = 35 + 2 * chain_id + y_parity` does not fit 256 bits.
+fn deserialize_chain_id<'de, D>(deserializer: D) -> Result<Option<U256>, D::Error>
+where
+    D: Deserializer<'de>,
+{
+    let chain_id = serialization::numopt::deserialize(deserializer)?;
+    if chain_id.is_some_and(|chain_id| chain_id > (U256::MAX - 36) >> 1) {
+        return Err(de::Error::custom(
+            "chain ID too large for EIP-155 replay protection",
+        ));
+    }
+    Ok(chain_id)
 }
 
 impl LegacyTransaction {
